@@ -200,6 +200,25 @@ theorem parseNum_renderF5 (d : Dec) (he : d.e10 = -5) : parseNum (renderF5 d) = 
   rw [he]
   rfl
 
+/-! ### `parsePy` extends `parseNum` -/
+
+theorem stripUsAux_id : ∀ (prev : Bool) (l : List Char), '_' ∉ l → stripUsAux prev l = some l
+  | _, [], _ => rfl
+  | prev, c :: r, h => by
+    have hc : c ≠ '_' := fun e => h (by simp [e])
+    have hr : '_' ∉ r := fun e => h (by simp [e])
+    simp only [stripUsAux, if_neg hc, stripUsAux_id (isDigit c) r hr]
+
+theorem parsePy_of_parseNum (s : Str) (q : Rat) (hus : '_' ∉ s) (h : parseNum s = some q) :
+    parsePy s = some (.fin q) := by
+  unfold parsePy stripUs
+  rw [stripUsAux_id false s hus]
+  simp only [h]
+
+theorem parseInt_of_plain (s : Str) (hus : '_' ∉ s) : parseInt s = parseIntPlain s := by
+  unfold parseInt stripUs
+  rw [stripUsAux_id false s hus]
+
 /-! ### rendered numbers are tokens -/
 
 theorem signChars_noWs (neg : Bool) : ∀ c ∈ signChars neg, isWs c = false := by
